@@ -55,6 +55,10 @@ func program(n, which int) string {
 		return fmt.Sprintf("package main\n\nfunc main(%s uint130) (uint130, uint65) {\n\tx := %s\n\treturn x | a, uint65(x) & uint65(b)\n}\n", args, and)
 	case 3: // 63/64-bit levels and inversions (XNOR/INV are handled by party 0)
 		return fmt.Sprintf("package main\n\nfunc main(%s uint64) (uint64, uint63, bool) {\n\tx := %s\n\treturn (x ^ a) + a, uint63(x) & uint63(a), a == b\n}\n", args, and)
+	case 5: // AND levels of exactly 64 gates
+		return fmt.Sprintf("package main\n\nfunc main(%s uint64) uint64 {\n\treturn %s\n}\n", args, and)
+	case 6: // AND levels of exactly 128 and 192 gates
+		return fmt.Sprintf("package main\n\nfunc main(%s uint192) (uint128, uint192) {\n\treturn uint128(a) & uint128(b), %s\n}\n", args, and)
 	case 4: // more than 4096 AND gates in the early levels: the first triple batch is not enough
 		return fmt.Sprintf("package main\n\nfunc main(%s uint4500) uint4500 {\n\tx := a & b\n\ty := x | %s\n\treturn (y & a) ^ (x & b)\n}\n", args, names[n-1])
 	}
@@ -379,7 +383,7 @@ func work(ctx *runner.Ctx) {
 		maxN = 5
 	}
 	for n := 2; n <= maxN; n++ {
-		for prog := 0; prog < 5; prog++ {
+		for prog := 0; prog < 7; prog++ {
 			if prog == 4 && (n > 2 || quick) && !(n == 2) {
 				continue
 			}
@@ -489,7 +493,7 @@ func main() {
 	runner.Main(runner.Spec{
 		ID:    "C10",
 		Level: "model_checking",
-		Rule: "the real gmw.Network and p2p.Conn (rewritten onto the cooperative scheduler; gmw's randomness seeded) run complete sessions over an in-memory network: (data part) 2..3 (thorough 2..5) parties x 5 GMW-compiled programs (narrow, many AND levels, AND levels of 130/65/64/63 gates, inversions, > 4096 ANDs in the early levels) x input vectors x triple requests {1,64,65 | 4096,4097 | 9000,1} issued by every party right after Connect x start orders, under the deterministic default schedule; (schedule part) for 2 (thorough 2 and 3) parties every start order x every schedule with <= 1 preemption at a non-deterministic operation (mutex, cond, accept, dial, spawn, listener close) and a bounded number of non-default free switches. Oracle: every party's Run returns without error, outputs equal the truth-table evaluation on all parties' inputs, every requested triple word satisfies (xor a)&(xor b) = xor c across the parties, Close returns, no deadlock. " +
+		Rule: "the real gmw.Network and p2p.Conn (rewritten onto the cooperative scheduler; gmw's randomness seeded) run complete sessions over an in-memory network: (data part) 2..3 (thorough 2..5) parties x 7 GMW-compiled programs (narrow, many AND levels, AND levels of 130/65/63 gates and of exactly 64/128/192 gates, inversions, > 4096 ANDs in the early levels) x input vectors x triple requests {1,64,65 | 4096,4097 | 9000,1} issued by every party right after Connect x start orders, under the deterministic default schedule; (schedule part) for 2 (thorough 2 and 3) parties every start order x every schedule with <= 1 preemption at a non-deterministic operation (mutex, cond, accept, dial, spawn, listener close) and a bounded number of non-default free switches. Oracle: every party's Run returns without error, outputs equal the truth-table evaluation on all parties' inputs, every requested triple word satisfies (xor a)&(xor b) = xor c across the parties, Close returns, no deadlock. " +
 			"states = distinct (steps, choice-point profile) classes of executions, transitions = scheduling steps, traces_validated_against_impl = complete protocol executions",
 		Assumptions: []string{
 			"link reads/writes and the Conn buffer ring are not preemption points here (FIFO links with one reader and one writer thread each; C11 explores them); preemptions are explored at mutex/cond/accept/dial/spawn operations",
